@@ -43,6 +43,9 @@ type BConn struct {
 	// connection answers with a reset, a peer that only shut down its sending side takes the bytes
 	postEOFProbed   bool
 	postEOFWritable bool
+	readsPaused     bool
+	readChunk       int           // > 0: read at most this many bytes at a time ...
+	readSleep       time.Duration // ... and sleep this long after each read (a slow host)
 }
 
 func NewBackend(ip string) (*Backend, error) {
@@ -112,7 +115,19 @@ func (b *Backend) acceptLoop() {
 func (c *BConn) readLoop() {
 	buf := make([]byte, 64*1024)
 	for {
-		n, err := c.C.Read(buf)
+		c.mu.Lock()
+		for c.readsPaused {
+			c.cond.Wait()
+		}
+		rb, slp := buf, c.readSleep
+		if c.readChunk > 0 && c.readChunk < len(buf) {
+			rb = buf[:c.readChunk]
+		}
+		c.mu.Unlock()
+		if slp > 0 {
+			time.Sleep(slp)
+		}
+		n, err := c.C.Read(rb)
 		c.mu.Lock()
 		if n > 0 {
 			c.recv = append(c.recv, buf[:n]...)
@@ -340,4 +355,26 @@ func (c *BConn) HalfClosedByPeer() bool {
 		c.mu.Lock()
 	}
 	return c.postEOFProbed && c.postEOFWritable
+}
+
+// PauseReading makes the host stop taking bytes from this connection (they queue in the kernel and
+// then in the gateway) until ResumeReading.
+func (c *BConn) PauseReading() {
+	c.mu.Lock()
+	c.readsPaused = true
+	c.mu.Unlock()
+}
+
+func (c *BConn) ResumeReading() {
+	c.mu.Lock()
+	c.readsPaused = false
+	c.cond.Broadcast()
+	c.mu.Unlock()
+}
+
+// SlowReads makes the host take at most chunk bytes every d from this connection.
+func (c *BConn) SlowReads(chunk int, d time.Duration) {
+	c.mu.Lock()
+	c.readChunk, c.readSleep = chunk, d
+	c.mu.Unlock()
 }
